@@ -19,6 +19,7 @@ package main
 
 import (
 	"math"
+	"math/big"
 	"sort"
 	"strings"
 )
@@ -266,15 +267,19 @@ type refNumerical struct {
 	errs uint64
 }
 
+// stats computes count, mean, sample standard deviation, min and max of the
+// full sample list (S5). Mean and variance are computed exactly with rationals
+// (every float64 is a rational) and rounded once, so the reference is immune to
+// the magnitude/spread of the data.
 func (r *refNumerical) stats() (n int, mean, sd, mn, mx float64) {
 	n = len(r.vals)
 	if n == 0 {
 		return
 	}
 	mn, mx = r.vals[0], r.vals[0]
-	sum := 0.0
+	sum := new(big.Rat)
 	for _, v := range r.vals {
-		sum += v
+		sum.Add(sum, new(big.Rat).SetFloat64(v))
 		if v < mn {
 			mn = v
 		}
@@ -282,13 +287,16 @@ func (r *refNumerical) stats() (n int, mean, sd, mn, mx float64) {
 			mx = v
 		}
 	}
-	mean = sum / float64(n)
+	m := new(big.Rat).Quo(sum, big.NewRat(int64(n), 1))
+	mean, _ = m.Float64()
 	if n > 1 {
-		ss := 0.0
+		ss := new(big.Rat)
 		for _, v := range r.vals {
-			ss += (v - mean) * (v - mean)
+			d := new(big.Rat).Sub(new(big.Rat).SetFloat64(v), m)
+			ss.Add(ss, d.Mul(d, d))
 		}
-		sd = math.Sqrt(ss / float64(n-1))
+		variance, _ := ss.Quo(ss, big.NewRat(int64(n-1), 1)).Float64()
+		sd = math.Sqrt(variance)
 	}
 	return
 }
